@@ -16,7 +16,7 @@ func init() {
 func kernelRules(c *Ctx, p *Program, prop string, fns []*ssa.Function, what string, floorMag, floorScan int) {
 	registerScanProgram(p)
 	c.Rule(prop+".sign", "L-ABS: math/big's Bytes/Bits/BitLen/Bit/FillBytes return the magnitude only; a "+what+" routine that scans them also consults the sign of that value (Sign/Cmp), scans a value computed from one whose sign was consulted (k.Neg(s), k.Set(s)), or a value non-negative by construction (Abs, Mod, SetBytes, Element.BigInt). For unexported helpers the obligation may be met by every caller (call graph)", floorMag)
-	c.Rule(prop+".scan", "L-SCAN: a descending loop that reads several local operands at the loop index (k1[i], k2[i]) starts from an index whose backward data-flow slice contains every one of those operands (or from a constant top index); otherwise the top words of the operand left out are never processed", floorScan)
+	c.Rule(prop+".scan", "L-SCAN: a descending loop that reads several local operands at the loop index (k1[i], k2[i]) starts from an index whose backward data-flow slice contains every one of those operands (or from a constant top index); otherwise the top words of the operand left out are never processed; and when the operands are fixed-size limb arrays the start index is not computed from an unbounded length ((*big.Int).BitLen, len(Bits())) — it would index past the limbs for a long scalar", floorScan)
 	for _, fn := range fns {
 		n, hits := signDiscipline(p, fn)
 		c.Instance(prop+".sign", n)
@@ -43,7 +43,7 @@ func checkC03(c *Ctx) {
 			fns = append(fns, fn)
 		}
 	}
-	kernelRules(c, p, "C03", fns, "scalar-multiplication", 50, 15)
+	kernelRules(c, p, "C03", fns, "scalar-multiplication", 30, 15)
 
 	c.Rule("C03.def", "DEFASSIGN: every scalar-multiplication entry point defines all coordinates of its receiver on every return and does not read the receiver's previous value", 100)
 	c.Rule("C03.zero", "ZERO: every windowed / GLV / Straus-Shamir kernel initialises its accumulator from the neutral element (a call of Set(&infinity) / setInfinity / SetInfinity on the local that the doubling loop updates) before the scan loop", 50)
